@@ -73,7 +73,8 @@ func (s *SimpleAuthCtx) check(streamName string, urlParam string) error {
 	v = strings.ToLower(v)
 
 	// 注意，只有DangerousLalSecret配置了值，才验证参数是否和DangerousLalSecret相等
-	if len(s.config.DangerousLalSecret) != 0 && v == s.config.DangerousLalSecret {
+	// 参数已经被转换成小写，所以这里的比较不区分大小写
+	if len(s.config.DangerousLalSecret) != 0 && strings.EqualFold(v, s.config.DangerousLalSecret) {
 		return nil
 	}
 
